@@ -107,7 +107,42 @@ structure DecimalRange where
   items : Option (List DItem)
   precision : Nat := 12
   scale : Nat := 31
+  lowerLimit : Option Dec := none
+  upperLimit : Option Dec := none
   deriving Repr, DecidableEq, Inhabited
+
+/-- `a < b` on decimals as Python evaluates it; a NaN makes it `false` here (limits are always finite: a NaN is
+never a NUMBER token) -/
+def Dec.lt (a b : Dec) : Bool :=
+  match Dec.le? b a with
+  | some false => true
+  | _ => false
+
+/-- the loop computing `_lower_limit` of a `DecimalRange` (same shape as `Range`'s) -/
+def dLowerLimitLoop : Option Dec → Bool → List DItem → Option Dec
+  | cur, _, [] => cur
+  | cur, first, it :: rest =>
+    let cur := if first then it.lo else cur
+    let cur := match it.lo with
+      | none => none
+      | some l => (match cur with
+                   | some c => if Dec.lt l c then some l else some c
+                   | none => none)
+    dLowerLimitLoop cur false rest
+
+def dUpperLimitLoop : Option Dec → Bool → List DItem → Option Dec
+  | cur, _, [] => cur
+  | cur, first, it :: rest =>
+    let cur := if first then it.hi else cur
+    let cur := match it.hi with
+      | none => none
+      | some u => (match cur with
+                   | some c => if Dec.lt c u then some u else some c
+                   | none => none)
+    dUpperLimitLoop cur false rest
+
+def dLowerLimitOf (its : List DItem) : Option Dec := dLowerLimitLoop none true its
+def dUpperLimitOf (its : List DItem) : Option Dec := dUpperLimitLoop none true its
 
 /-- `_item_contains` for decimals; `none` = `InvalidOperation` -/
 def DItem.contains? (it : DItem) (v : Dec) : Option Bool :=
@@ -240,7 +275,8 @@ def DecimalRange.parse (description : Str) (default : Option Str := none) : Out 
       | .error e => .error e
       | .ok (its, after, before) =>
         if before < 0 then .error .assertion      -- `assert self.scale >= self.precision`
-        else .ok { items := some its, precision := after, scale := (before + after).toNat }
+        else .ok { items := some its, precision := after, scale := (before + after).toNat,
+                   lowerLimit := dLowerLimitOf its, upperLimit := dUpperLimitOf its }
 
 /-- the character loop of `DecimalFieldFormat.validated_value`: `none` = `FieldValueError` -/
 def translateDecimal (decimalSep : Char) (thousandsSep : Option Char) : Str → Bool → Option Str
